@@ -313,6 +313,8 @@ def gen_trace(seed: int, tier: str) -> dict:
     if rs.random() < 0.3:
         for fam in rs.sample(["charts", "themes", "notes", "media", "embeddings"], rs.choice([1, 2])):
             xf.append({"kind": "renumber", "family": fam, "mode": rs.choice(["odd", "shift", "sparse", "reverse"]), "seed": rs.randint(0, 99)})
+    if rs.random() < 0.12:
+        xf.insert(0, {"kind": "unlist_slide", "k": rs.randint(0, 5)})
     if rs.random() < 0.25:
         xf.append({"kind": "respell_rids", "style": rs.choice(["mixed", "hex", "padded", "sparse", "words"]), "seed": rs.randint(0, 99)})
     if xf:
@@ -392,4 +394,24 @@ def pinned_traces(tier):
             {"op": "checkpoint", "sink": "seekable"}, {"op": "restart"}]
     out.append({"property": ID, "seed": "rid-gap-reuse", "tier": "pinned", "config": {"pinned": True},
                 "start": [{"deck": "default"}], "events": evs})
+    # a relationship shared by several users (same URL on runs / on shapes, same jump target): one user changed, one cleared, then NEW
+    # relationships are made on that slide - none of them may take the id the remaining users still refer to
+    U = "http://example.com/shared"
+    for kind in ("run", "click", "jump"):
+        evs = [{"op": "add_slide", "layout": 6}, {"op": "add_slide", "layout": 6}, {"op": "add_slide", "layout": 6},
+               dict(box, op="add_textbox", slide=0, text="one\ntwo\nthree"), dict(box, op="add_shape", slide=0, type=1), dict(box, op="add_shape", slide=0, type=1),
+               dict(box, op="add_shape", slide=0, type=1)]
+        if kind == "run":
+            setl = lambda i, v: {"op": "run_hyperlink", "slide": 0, "shape": 0, "para": i, "run": 0, "addr": v}  # noqa: E731
+        elif kind == "click":
+            setl = lambda i, v: {"op": "click_hyperlink", "slide": 0, "shape": 1 + i, "addr": v}  # noqa: E731
+        else:
+            setl = lambda i, v: {"op": "click_target", "slide": 0, "shape": 1 + i, "target": (None if v is None else (1 if v == U else 2))}  # noqa: E731
+        evs += [setl(0, U), setl(1, U), setl(2, U), {"op": "c06.remember", "slide": 0},
+                setl(1, U + "/other"), {"op": "add_picture", "slide": 0, "img": img, "src": {"via": "stream", "pos": 0}, "size": "none", **box},
+                setl(0, None), {"op": "click_hyperlink", "slide": 0, "shape": 3, "addr": "http://example.com/new"},
+                {"op": "add_picture", "slide": 0, "img": dict(img, seed=2), "src": {"via": "stream", "pos": 0}, "size": "none", **box},
+                {"op": "c06.lookup"}, {"op": "checkpoint", "sink": "seekable"}, {"op": "restart"}, {"op": "c06.lookup"}]
+        out.append({"property": ID, "seed": "shared-relationship-%s" % kind, "tier": "pinned", "config": {"pinned": True},
+                    "start": [{"deck": "default"}], "events": evs})
     return out
